@@ -192,10 +192,26 @@ func (w *World) End(who int) *Call {
 	return w.finish(c, true)
 }
 
+// Lend returns a private copy of b to be handed to the library for the duration of one call, and a function that
+// overwrites that copy afterwards: a buffer passed to an API call belongs to the caller again once the call has
+// returned (an application wipes a pass-phrase field or reuses its input buffer), so nothing the library does later
+// may depend on its contents.
+func Lend(b []byte) ([]byte, func()) {
+	buf := append(make([]byte, 0, len(b)+8), b...)
+	return buf, func() {
+		full := buf[:cap(buf)]
+		for i := range full {
+			full[i] = 0xA5 ^ byte(i)
+		}
+	}
+}
+
 // SMPStart calls StartAuthenticate.
 func (w *World) SMPStart(who int, question string, secret []byte) *Call {
 	c := w.begin(who, "StartAuthenticate", secret)
-	out, err := w.P[who].C.StartAuthenticate(question, secret)
+	buf, reuse := Lend(secret)
+	out, err := w.P[who].C.StartAuthenticate(question, buf)
+	reuse()
 	c.Out, c.Err = w.take(out, w.P[c.Who].Name+"."+c.Name), err
 	return w.finish(c, true)
 }
@@ -203,7 +219,9 @@ func (w *World) SMPStart(who int, question string, secret []byte) *Call {
 // SMPAnswer calls ProvideAuthenticationSecret.
 func (w *World) SMPAnswer(who int, secret []byte) *Call {
 	c := w.begin(who, "ProvideAuthenticationSecret", secret)
-	out, err := w.P[who].C.ProvideAuthenticationSecret(secret)
+	buf, reuse := Lend(secret)
+	out, err := w.P[who].C.ProvideAuthenticationSecret(buf)
+	reuse()
 	c.Out, c.Err = w.take(out, w.P[c.Who].Name+"."+c.Name), err
 	return w.finish(c, true)
 }
